@@ -14,7 +14,7 @@ t('C19', 'E1', 'exhaustive enumeration of all (chain, trust list) pairs over a l
   'Look-alikes outside the seven pool members are not explored. crypto/x509 parsing is trusted to return Raw = input DER.')
 
 t('C03', 'E1', 'exhaustive enumeration of chain descriptions (single violations, benign x violation pairs, violation pairs) against a reference model evaluated on the description',
-  'Chains of length 1..4 (quick) / 1..5 (thorough) are forged from descriptions; every single requirement violation at every position, every benign variation (incl. an intermediate named like its issuer), every (benign, violation) pair (violations incl. a signature value corrupted after issuance and an issuer name with reordered attributes; fixed serial numbers; the conforming chain validated first) and (thorough) every pair of violations is validated by the real ValidateCodeSigningCertChain, the revocation validators and Sign() in both formats, and compared with a reference computed from the description. Signing-time boundaries are exact (NotBefore, NotAfter, +-1 s).',
+  'Chains of length 1..4 (quick) / 1..5 (thorough) are forged from descriptions; every single requirement violation at every position, every benign variation (incl. an intermediate named like its issuer), every (benign, violation) pair (violations incl. a signature value corrupted after issuance, an issuer name with reordered attributes and supplied signing times at the zero instant / epoch / year 9999; a panicking validator is a violation; fixed serial numbers; the conforming chain validated first) and (thorough) every pair of violations is validated by the real ValidateCodeSigningCertChain, the revocation validators and Sign() in both formats, and compared with a reference computed from the description. Signing-time boundaries are exact (NotBefore, NotAfter, +-1 s).',
   'crypto/x509 certificate creation and parsing are trusted. Don\'t-care zones (contentCommitment, EKU on CAs, unknown critical extensions, shared keys) are not generated. Validity windows sit >= 2 h from the clock.')
 t('C14', 'E1', 'exhaustive enumeration of TSA chain descriptions incl. all 16 EKU subsets x criticality against a reference model',
   'Same generator as C03 under the timestamping rule set, with the leaf EKU ranging over all 16 subsets of {timeStamping, codeSigning, any, unknown} x both criticalities; the verdicts of ValidateTimestampingCertChain and of both revocation entry points configured for timestamping are compared with the reference, and the code-signing validator is compared differentially on the same descriptions.',
@@ -32,7 +32,7 @@ t('C11', 'E1', 'complete decision-table enumeration (responders x distribution p
   'The whole table o in 0..3, c in 0..3, every outcome class of every contacted source, both purposes, both entry points, plus bounded deviations on chains of length 3..4; result, method label, ordered server results and the per-certificate request sequence are compared with the statement\'s table.',
   'One representative behaviour per outcome class (the behaviour alphabets are covered by C04/C05/C06).')
 t('C06', 'E1', 'deviation-bounded and full-product fault enumeration over every OCSP / CRL URL, cache operation and cancellation point',
-  'Fault alphabets of 24 OCSP and 22 CRL answers (transport errors, timeouts, non-200 with genuine bodies, empty/truncated/oversized/garbage bodies, OCSP error statuses, cancellation before/during/after a request, 32 MiB and endless bodies) x cache faults with DiscardCacheError on/off x non-http URL strings, full product on one certificate with up to (3,3) sources and bounded deviations on chains of length 3..4; fail-closed implication plus an isolation table.',
+  'Fault alphabets of 24 OCSP and 22 CRL answers (transport errors, timeouts, non-200 with genuine bodies, empty/truncated/oversized/garbage bodies, OCSP error statuses, cancellation before/during/after a request, 32 MiB and endless bodies) x cache faults with DiscardCacheError on/off x non-http and unparsable URL strings before, after or instead of the usable ones, full product on one certificate with up to (3,3) sources and bounded deviations on chains of length 3..4; fail-closed implication plus an isolation table.',
   'Evidence of good standing is the class of the answer actually delivered. Panics are judged by C09.')
 
 t('C17', 'E2', 'controlled scheduler over the real goroutines: exhaustive enumeration of all seam-operation interleavings with panic / cancellation injection, plus an auxiliary free-running -race pass',
@@ -43,10 +43,10 @@ t('C02', 'E1', 'complete enumeration of the finite (key kind x declared algorith
   'All 10 leaf key kinds x 17 declarations x both formats x both schemes (x 5 JWS declaration forms incl. letter-case twins of alg), each envelope produced by an independent encoder and signed validly for the declared algorithm wherever the key type permits; every remote KeySpec in a 4x10 grid against every certificate key, on a fresh envelope object and on one that already signed with a leaf matching the declared spec; every (leaf key, private key) pair of the 26-key pool for NewLocalSigner; Hash() and SignatureAlgorithm() tables. The space is finite and enumerated completely.',
   'ECDSA/RSA/HMAC from the Go standard library are trusted. Two exact alg members are not generated.')
 t('C07', 'E1', 'deviation-bounded enumeration (singles, pairs, triples) of header-set deviations on correctly signed envelopes from an independent encoder',
-  '16 conformant header sets plus 60+ named deviations in 11 slots, tagged must-reject / recorded-only / benign; every single deviation and every cross-slot pair (thorough: triples) is encoded, validly signed and given to ParseEnvelope+Verify and +Content. Oracle: soundness on the description and on the returned value, completeness for conformant sets, Verify => Content with an identical result, also when Verify, Content, Verify, Content are called on one parsed object.',
+  '16 conformant header sets plus 83 named deviations in 11 slots (incl. payload members named like JWT registered claims), tagged must-reject / recorded-only / benign; every single deviation and every cross-slot pair (thorough: triples) is encoded, validly signed and given to ParseEnvelope+Verify and +Content. Oracle: soundness on the description and on the returned value, completeness for conformant sets, Verify => Content with an identical result, also when Verify, Content, Verify, Content are called on one parsed object.',
   'Deviations of one slot are never combined. Recorded-only deviations are not judged. Larger random sets are replaced by the exhaustive bound.')
 t('C12', 'E1+E2', 'deviation-bounded enumeration of per-source outcomes with model-independent shape rules, invalid-chain classes, and exhaustive completion orders under the seam scheduler',
-  'Chains of length 1..5 (quick) / 1..6 (thorough) with distinct URLs (two responders + one point, points only, one responder + two points, no sources), every per-source outcome class with <=1/<=2 deviations, both purposes, three entry points: documented shape rules checked on every result list and every position compared with the decision-table reference; every chain-validation violation class (the same certificates checked for the other purpose first), empty and nil chain must give InvalidChainError and nil results; unusual URL spellings and a repeated distribution point; the same chain twice through one object; the caller\'s certificates compared with a fresh parse afterwards; E2 enumerates all completion orders of the concurrent per-certificate checks.',
+  'Chains of length 1..5 (quick) / 1..6 (thorough) with distinct URLs (two responders + one point, points only, one responder + two points, no sources), every per-source outcome class with <=1/<=2 deviations, both purposes, three entry points: documented shape rules checked on every result list and every position compared with the decision-table reference; every chain-validation violation class (the same certificates checked for the other purpose first), empty and nil chain must give InvalidChainError and nil results; unusual URL spellings and a repeated distribution point; the same chain three times through one object (the caller overwrites the second answer in between); the caller\'s certificates compared with a fresh parse afterwards; E2 enumerates all completion orders of the concurrent per-certificate checks.',
   'One representative behaviour per outcome class.')
 t('C13', 'E1', 'enumeration of extra protected headers (label kinds x value kinds by rotation, all critical subsets) on correctly signed envelopes',
   '0..6 extra protected headers with text and COSE integer labels (incl. look-alikes of specification names), values of every JSON/CBOR kind, every subset marked critical, each parsed object read Content, Verify, Content, Verify; plus crit naming absent labels (must be rejected) or specification labels that need not be critical (if accepted, they still never appear among the attributes); the surfaced multiset of (key, criticality, value) is compared through the format data model (exact numbers), and ExtendedAttribute lookup is checked.',
@@ -55,23 +55,23 @@ t('C08', 'E1', 'deviation-bounded enumeration (singles and cross-slot pairs) of 
   'A default request plus 78 valid variations in 10 slots (incl. times in zones with sub-minute UTC offsets); every single variation and pair (P-256; singles on the other five key specs) in both formats with local and remote signers. Another envelope is signed between Sign and the use of its result (the returned slice must not change). The envelope must verify and equal the request (exact-number JSON / CBOR data model); the bytes handed to the external signer are compared with the signing input recomputed by an independent JSON/CBOR decoder.',
   'Attribute integers stay below 2^53 here (see C13). An empty content type is only a valid request for JWS.')
 t('C16', 'E1', 'deviation-bounded enumeration (singles and cross-slot pairs) of invalidating changes to a valid sign request',
-  '137 invalidating changes in 7 slots (incl. the same COSE integer label twice in equal or different Go integer types) and three valid boundary cases; every single change and every cross-slot pair, both formats and schemes, local and remote signer, P-256 and RSA-2048 (thorough: six key specs). Any invalidating change => error, nil bytes, no panic; none => success; plus NewLocalSigner argument cases.',
+  '153 invalidating changes in 7 slots (incl. look-alike names of the JWS specification headers, integer labels above int64, text keys that are not valid UTF-8) (incl. the same COSE integer label twice in equal or different Go integer types) and three valid boundary cases; every single change and every cross-slot pair, both formats and schemes, local and remote signer, P-256 and RSA-2048 (thorough: six key specs). Any invalidating change => error, nil bytes, no panic; none => success; plus NewLocalSigner argument cases.',
   'Changes of one slot are never combined. A signer whose chain carries another key of the same kind, or nil certificates, is outside the statement.')
 t('C20', 'E3', 'exhaustive enumeration of operation histories on one envelope object against a six-state reference machine',
   'Every history up to length 4 (quick) / 5 (thorough) (one less for local signers) over 11 operations (incl. an external signer whose signature value was made with another key, and another envelope object signing a request of another shape) from 3 start states, both formats, local and remote signer, each replayed on a fresh object; after every operation Verify and Content are called twice and compared with the machine; every value handed out is kept with a copy and compared at the end of the history (purity, no-signature when empty, content of the last successful signing equal to a fresh parse of the returned bytes, failed signing never observable). Closed-form history counts are checked.',
   'After a failed signing the model follows whichever allowed observation the object shows.')
 
 t('C01', 'E1', 'exhaustive application of seven mutation-operator classes to every base envelope with a signing ledger as oracle',
-  'Every single-bit flip, every prefix, every single-byte deletion and insertion, structural edits of the decoded container, every splice of a non-empty proper subset of {protected, payload, signature, chain} between every pair of entries, leaf substitutions, re-encodings and unsigned-part edits of every base envelope (independent encoder and library-signed; also entries signed by the intermediate / root / an unrelated key). If a mutant verifies, the ledger of everything the harness keys signed must hold an entry by the returned leaf key equal in all signed fields, re-verified with the standard library.',
+  'Every single-bit flip, every prefix, every single-byte deletion and insertion, structural edits of the decoded container, every splice of a non-empty proper subset of {protected, payload, signature, chain} between every pair of entries, leaf substitutions, re-encodings and unsigned-part edits of every base envelope (independent encoder and library-signed; also JWS entries whose payload text is line-wrapped and signed in that form, entries with a second chain inside the signed header, and entries signed by the intermediate / root / an unrelated key). If a mutant verifies, the ledger of everything the harness keys signed must hold an entry by the returned leaf key equal in all signed fields, re-verified with the standard library.',
   'Cryptography is trusted (the harness holds every private key). Inputs further than one operator application from a base entry are not explored.')
 t('C09', 'E1', 'exhaustive byte-level neighbourhoods of every seed, all inputs of length <= 2, special inputs and the full product of hostile URL strings x answers x entry points, in crash-contained workers with a watchdog',
   'Every prefix, single-bit flip and {00,01,7f,80,ff} substitution of envelopes, certificate and key files, an OCSP response, a base and a delta CRL; all inputs of length <= 2; ~30 special inputs (deep nesting, huge declared lengths); 22 hostile URL strings x 5 positions x 4 serial sizes x 7 answers x 4 entry points; 10 authentic-but-unusual CRL bundles; OCSP / CRL / delta replies whose body never ends (3 statuses x 3 prefixes x 2 entry points; a read that reaches the 128 MiB harness horizon was not bounded). Every call runs on a watched goroutine (panic / 60 s watchdog) and the worker process is journalled so that a process death is confirmed in fresh processes.',
   'The input space is infinite: only the stated neighbourhoods are decided. Coverage-guided fuzzing (sampling) is deliberately not used.')
 t('C15', 'E1', 'full-product enumeration of TSA behaviours x revocation-result vectors x configurations against an in-process RFC 3161 authority',
-  'A hand-written CMS/RFC 3161 authority behind tspclient HTTP timestamper with 46 behaviours (a valid timestamped signing is made first in each process) (incl. TSA certificates outside their validity at the moment of signing with a genTime shifted into it; requests handed to Sign directly and through WithContext) x revocation validator {none, every vector over four results for the TSA chain, error, wrong-length vectors} x timestamper set/nil x both formats x both schemes x key specs; success iff the statement condition; embedded token byte-identical to the issued one; request imprint = H(signature) with the table hash; failures are TimestampError with no bytes; authority never contacted under signingAuthority or without a timestamper.',
+  'A hand-written CMS/RFC 3161 authority behind tspclient HTTP timestamper with 50 behaviours (incl. the caller giving up while the authority works; quick tier: the valid authorities under all six key specs) (a valid timestamped signing is made first in each process) (incl. TSA certificates outside their validity at the moment of signing with a genTime shifted into it; requests handed to Sign directly and through WithContext) x revocation validator {none, every vector over four results for the TSA chain, error, wrong-length vectors} x timestamper set/nil x both formats x both schemes x key specs; success iff the statement condition; embedded token byte-identical to the issued one; request imprint = H(signature) with the table hash; failures are TimestampError with no bytes; authority never contacted under signingAuthority or without a timestamper.',
   'Caller-written Timestamper implementations and validators returning nil entries are outside the statement.')
 t('C18', 'E3', 'exhaustive enumeration of event histories on the real HTTPFetcher with scripted transport and cache, against a reference model of the fetcher',
-  'Every history up to depth 4 (quick) / 5 (thorough) over 20 events (incl. the cache holding the base the server still serves with an expired delta, a cache that reports a miss as a wrapped ErrCacheMiss and a caller that cancels right after the base download has been answered) x {no cache, cache, cache+discard} x 14 freshest-CRL shapes (location lists deliberately not in lexical order); each fetch is judged from the request and cache-operation log against the statement (cached bundle only if effective in both parts, downloaded bundle written to the cache, delta iff advertised and from the first answering location, unobtainable delta is an error, cache faults are errors unless discarded, miss never an error, http only) and against a reference model; returned CRLs hold the served bytes and keep them while later fetches run.',
+  'Every history up to depth 4 (quick) / 5 (thorough) over 20 events on 17 freshest-CRL shapes (incl. nameless distribution points next to the one carrying the location) (incl. the cache holding the base the server still serves with an expired delta, a cache that reports a miss as a wrapped ErrCacheMiss and a caller that cancels right after the base download has been answered) x {no cache, cache, cache+discard} x 17 freshest-CRL shapes (location lists deliberately not in lexical order); each fetch is judged from the request and cache-operation log against the statement (cached bundle only if effective in both parts, downloaded bundle written to the cache, delta iff advertised and from the first answering location, unobtainable delta is an error, cache faults are errors unless discarded, miss never an error, http only) and against a reference model; returned CRLs hold the served bytes and keep them while later fetches run.',
   'A URI sharing a distribution-point name with a non-URI name is a recorded don\'t-care.')
 
 checks = []
